@@ -4,6 +4,7 @@ Bridging lemmas between `Slice.toList`, `Slice.getD`, `Slice.toArray`, `Mem.wind
 -/
 import MemchrModel.Base.Lemmas
 import MemchrModel.Base.Slice
+import MemchrModel.Spec.Substr
 
 namespace Memchr
 
@@ -135,6 +136,24 @@ theorem Valid.endPtr_le {s : Slice} (h : s.Valid) :
     s.ptr + s.len ≤ s.mem.base + s.mem.bytes.size := by
   unfold Valid at h
   simp only [ptr]; omega
+
+/-- an occurrence of the needle slice in the haystack slice, in terms of memory windows -/
+theorem occAt_iff_window {h n : Slice} (hh : h.Valid) (hn : n.Valid) (i : Nat) :
+    Spec.OccAt h.toArray n.toArray i ↔
+      i + n.len ≤ h.len ∧ h.mem.window (h.ptr + i) n.len = n.mem.window n.ptr n.len := by
+  unfold Spec.OccAt
+  rw [toArray_size hh, toArray_size hn, Mem.window_eq_iff]
+  constructor
+  · rintro ⟨h1, h2⟩
+    refine ⟨h1, fun k hk => ?_⟩
+    have := h2 k hk
+    rw [toArray_getElem?_byteAt hh (i + k) (by omega), toArray_getElem?_byteAt hn k hk] at this
+    rw [Nat.add_assoc]
+    exact Option.some.inj this
+  · rintro ⟨h1, h2⟩
+    refine ⟨h1, fun k hk => ?_⟩
+    rw [toArray_getElem?_byteAt hh (i + k) (by omega), toArray_getElem?_byteAt hn k hk,
+      ← Nat.add_assoc, h2 k hk]
 
 end Slice
 
